@@ -107,6 +107,20 @@ static void topt_verify(struct xcm_socket *s, int ep, const struct topt *expect,
     vobs("tcp_option_verifications", 1);
 }
 
+/* A value XCM's own range check lets through but the kernel refuses (TCP_KEEPIDLE / TCP_KEEPINTVL above 32767, TCP_KEEPCNT above 127), set on a
+ * socket that has its kernel descriptor: whatever the call returns, "accepted" must mean "reported and in force".  A refusal leaves the expectation
+ * alone; the same set tried again is judged the same way (an acceptance is merged into the expectation and the kernel comparison decides). */
+static void topt_try_kernel_refused(struct xcm_socket *s, int ep, struct topt *expect, vrng *r)
+{
+    int i = 1 + (int)vrnd_n(r, 3);
+    int64_t v = i == 3 ? 128 + (int64_t)vrnd_n(r, 1000) : 32768 + (int64_t)vrnd_n(r, 100000);
+    for (int k = 0; k < 2; k++) {
+        SCX("xcm_attr_set", ep); int rc = xcm_attr_set_int64(s, topt_name[i], v); vs_leave();
+        if (rc == 0) { expect->set[i] = true; expect->v[i] = v; vobs("kernel_refused_values_accepted_by_xcm", 1); }
+        else vobs("kernel_refused_values_refused", 1);
+    }
+}
+
 /* ---- TCPOPT ---- */
 static void run_tcpopt(long idx, vrng *r, enum vtp tp, enum moment mo)
 {
@@ -158,7 +172,7 @@ static void run_tcpopt(long idx, vrng *r, enum vtp tp, enum moment mo)
     }
     if (!ready) { vobs("not_established", 1); goto out; }
     if (mo == M_RESOLVING || mo == M_CONNECTING) vobs("parked_sets_whose_connection_established", 1);
-    if (mo == M_ESTABLISHED) { if (topt_apply(cl, 0, &later, moment_name[mo]) < 0) goto out; topt_merge(&expect, &later); }
+    if (mo == M_ESTABLISHED) { if (topt_apply(cl, 0, &later, moment_name[mo]) < 0) goto out; topt_merge(&expect, &later); if (vrnd_p(r, 40)) topt_try_kernel_refused(cl, 0, &expect, r); }
     if (mo == M_PEER_CLOSED) {
         { SCX("xcm_close", 1); xcm_close(ac); vs_leave(); ac = NULL; }
         unsigned char b[64]; for (int i = 0; i < 500; i++) { SCX("xcm_receive", 0); int rc = xcm_receive(cl, b, sizeof b); int re = errno; vs_leave(); if (rc == 0 || (rc < 0 && re != EAGAIN)) break; struct pollfd none; vs_real_poll(&none, 0, 1); }
@@ -171,6 +185,7 @@ static void run_tcpopt(long idx, vrng *r, enum vtp tp, enum moment mo)
         struct topt ex2; memset(&ex2, 0, sizeof ex2);
         if (mo == M_ACCEPTED) { if (topt_apply(ac, 1, &later, moment_name[mo]) < 0) goto out; }
         topt_merge(&ex2, &later);
+        if (mo == M_ACCEPTED && vrnd_p(r, 40)) topt_try_kernel_refused(ac, 1, &ex2, r);
         topt_verify(ac, 1, &ex2, moment_name[mo], pr);
     }
     topt_verify(cl, 0, &expect, moment_name[mo], pr);
